@@ -95,6 +95,10 @@ class Model:
         self.gone_relaxed = set()
         self.last_crash_at = None
         self.exhausted_at_restart = {}
+        self.fault_iter = None
+        self.fault_epoch = None
+        self.sigterm_epoch = None
+        self.fault_in_shutdown = False
         self.start_seen = {}
 
     # ------------------------------------------------------------ helpers
@@ -134,6 +138,7 @@ class Model:
         self.epoch = r['n']
         self.W = r['t']
         self.iter = 0
+        self.fault_in_shutdown = False
         self.conn = {}
         self.cur_cb = None
         self.armed = {}
@@ -213,6 +218,9 @@ class Model:
             self.stat('clean_shutdowns')
             # R-CLEAN: every acknowledged change is in the checkpoint
             for owner in sorted(self.dirty):
+                if self.fault_in_shutdown:
+                    self.relax += 1
+                    continue
                 # what a restart would bring back vs what was acknowledged
                 live = {u: q.gen for u, q in self.queue.items()
                         if q.owner == owner and bisect.bisect_left(q.occ, self.W, q.ptr) < len(q.occ)}
@@ -373,6 +381,8 @@ class Model:
 
     def on_signal(self, r):
         self.sigs.append(r['sig'])
+        if r['sig'] in (2, 15):
+            self.sigterm_epoch = self.epoch
 
     # ------------------------------------------------------------ connections
     def on_conn(self, r):
@@ -642,6 +652,10 @@ class Model:
         elif route == 'queue':
             if code == 404:
                 uids = set()
+            elif code == 500 and self.fault_iter == self.iter:
+                # the checkpoint it asked for hit an injected failure and says so
+                self.relax += 1
+                return
             elif code != 200:
                 self.v('R-LIST', 'queue-status', 'GET %s by %s answered %d' % (path, peer, code))
                 return
@@ -831,6 +845,11 @@ class Model:
         if r.get('inj'):
             self.stat('spoolfaults_fired')
             self.probe('spoolfault_' + r['call'])
+            self.fault_iter = self.iter
+            self.fault_epoch = self.epoch
+            if self.sigterm_epoch == self.epoch:
+                # the shutdown checkpoint itself was hit: nothing can retry it
+                self.fault_in_shutdown = True
 
     def on_crash(self, r):
         self.stat('crash_at_' + r.get('at', '?'))
